@@ -2,7 +2,25 @@ import TTV.Model.Result
 import TTV.Model.ResC04
 import TTV.Spec.C04
 import TTV.Lemmas.LeafAct
-/-! # C04 — run verdict and stop control (work in progress) -/
+/-! # C04 — run verdict and stop control are consistent with the outcomes reported
+
+Theorems over the tree model M-Res (`TTV/Model/Result.lean`), for **every** graph (any depth / fan-out) of
+`ExtendedToOriginalDecorator`, `TestResultDecorator`, `Tagger`, `ThreadsafeForwardingResult`, `MultiTestResult`
+over `TestResult` / `TextTestResult` leaves and **every** call history (no bound).
+
+* `holds_model_partial`        : the clauses `verdict`, `text-summary`, `failfast-stops`, `stop-reaches`, `exit-status` of
+                                 `Spec.C04.clauses` are true of the model's trace (see its docstring for the scope)
+* `C04_verdict`                : `wasSuccessful()` is false exactly when an error / failure / unexpected success was reported
+                                 since the last `startTestRun` (on any branch of a `MultiTestResult`)
+* `C04_text_summary_partial`   : what every `TextTestResult` writes (graphs without `ThreadsafeForwardingResult`)
+* `C04_failfast_stops_partial` : with `failfast` reading true, the first bad outcome sets `shouldStop` (all but a directly used
+                                 `ThreadsafeForwardingResult`: finding `tfrOwnFailfastDirect`)
+* `C04_stop_reaches`           : `stop()` on any node sets `shouldStop` on every result below it and on the node
+* `C04_exit`                   : exit status and summary of `testtools.run` for a module of test cases, with and without `-f`
+* `C04_finding_tfr`, `C04_finding_nested` : the model reproduces the two known findings
+Not proved (correspondence only): the clauses `failfast-kept` (wrapping leaves `failfast` alone), `stop-sticky`,
+`not-earlier`; everything through `ExtendedToStreamDecorator` + `StreamFailFast`.
+-/
 namespace TTV.Props.C04
 open TTV.Result TTV.ResC04 TTV.Spec.C04 TTV.Lemmas.LeafAct TTV.Lemmas.ResEmit
 set_option linter.unusedSimpArgs false
@@ -819,5 +837,201 @@ theorem C04_failfast_stops_partial (s : Shape) (hw : s.wf = true) (ho : ownLeave
         show (shouldStopOf (.etod e) (step (.etod e) (own', inner') (.add k t a)) :: shouldStopL ds _).any id = true
         simp [this]
       | _ => simp [Shape.wf, Shape.wfL] at hw
+
+/-! ## the proved clauses of the executable specification hold of the model -/
+theorem obs_map (s : Shape) (st : St s) (h : List Call) (f : Obs → α) :
+    ((states s st h).map (observe s)).map f = (states s st h).map (fun x => f (observe s x)) := by
+  simp [List.map_map, Function.comp_def]
+
+mutual
+theorem noText_leaves : ∀ (s : Shape), hasText s = false → ∀ (st : St s), (leaves s st).filterMap LeafSt.textOut = []
+  | .sink _, _, _ => rfl
+  | .tt _, _, _ => rfl
+  | .text _, h, _ => by simp [hasText] at h
+  | .tbt, _, _ => rfl
+  | .etod c, h, (_, inner) => by simp only [leaves]; exact noText_leaves c (by simpa [hasText] using h) inner
+  | .deco c, h, st => by simp only [leaves]; exact noText_leaves c (by simpa [hasText] using h) st
+  | .tagger _ _ c, h, st => by simp only [leaves]; exact noText_leaves c (by simpa [hasText] using h) st
+  | .tfr c, h, (_, inner) => by simp only [leaves]; exact noText_leaves c (by simpa [hasText] using h) inner
+  | .e2s c, h, (_, inner) => by simp only [leaves]; exact noText_leaves c (by simpa [hasText] using h) inner
+  | .multi cs, h, (_, inner) => by simp only [leaves]; exact noText_leavesL cs (by simpa [hasText] using h) inner
+theorem noText_leavesL : ∀ (ss : List Shape), hasTextL ss = false → ∀ (st : StL ss),
+    (leavesL ss st).filterMap LeafSt.textOut = []
+  | [], _, _ => rfl
+  | s :: ss, h, (x, xs) => by
+      simp only [hasTextL, Bool.or_eq_false_iff] at h
+      simp only [leavesL, List.filterMap_append, noText_leaves s h.1 x, noText_leavesL ss h.2 xs, List.append_nil]
+end
+
+/-- `stop()` reaches, along a whole history -/
+theorem stopReaches_states (s : Shape) (hw : s.wf = true) (ho : ownLeaves s = true) (hn : s.noStream = true) :
+    ∀ (h : List Call) (st : St s), stopReaches h ((states s st h).map (observe s)) = true
+  | [], _ => rfl
+  | c :: h, st => by
+      simp only [states, List.map_cons, stopReaches, Bool.and_eq_true, stopReaches_states s hw ho hn h, and_true,
+        Bool.or_eq_true, Bool.not_eq_true']
+      by_cases hc : c = .stop
+      · subst hc
+        right
+        obtain ⟨h1, h2⟩ := C04_stop_reaches s hw ho hn st
+        simp only [observe, h2, true_and, List.all_map, List.all_eq_true]
+        exact fun l hl => by simpa using h1 l hl
+      · left; simpa using hc
+
+/-- fail-fast stops, along a whole history (roots other than a `ThreadsafeForwardingResult`) -/
+theorem ffStops_states (s : Shape) (hw : s.wf = true) (ho : ownLeaves s = true) (hn : s.noStream = true)
+    (hroot : ∀ c, s ≠ .tfr c) :
+    ∀ (h : List Call) (st : St s), ffStops (readFF s st) h ((states s st h).map (observe s)) = true
+  | [], _ => rfl
+  | c :: h, st => by
+      simp only [states, List.map_cons, ffStops, Bool.and_eq_true, Bool.or_eq_true, Bool.not_eq_true']
+      refine ⟨?_, ffStops_states s hw ho hn hroot h _⟩
+      by_cases hff : readFF s st = some true
+      · cases c with
+        | add k t a =>
+          by_cases hk : Kind.bad k = true
+          · right; exact C04_failfast_stops_partial s hw ho hn hroot st k t a hk hff
+          · left; simp [isBadAdd, hk]
+        | _ => left; simp [isBadAdd]
+      · left
+        cases hr : readFF s st with
+        | none => simp
+        | some b => cases b <;> simp_all
+
+/-- a `ThreadsafeForwardingResult` reported to directly on which `failfast` is never set: it reads false throughout -/
+theorem ffStops_tfr (ch : Shape) : ∀ (h : List Call) (st : St (.tfr ch)),
+    (h.any fun | .setFailfast true => true | _ => false) = false → st.1.tt.failfast = false →
+    ffStops (readFF (.tfr ch) st) h ((states (.tfr ch) st h).map (observe (.tfr ch))) = true
+  | [], _, _, _ => rfl
+  | c :: h, (own, inner), hh, hf => by
+      simp only [List.any_cons, Bool.or_eq_false_iff] at hh
+      have hf0 : own.tt.failfast = false := hf
+      have hf' : (step (.tfr ch) (own, inner) c).1.tt.failfast = false := by
+        cases c with
+        | add k t a => exact hf
+        | setFailfast b =>
+          cases b
+          · simp [step, tfrStep, ttStep, Call.logged]
+          · simp at hh
+        | tags n g => simp only [step, tfrStep]; split <;> simp [ttStep, Call.logged, hf0]
+        | startTestRun => simp [step, tfrStep, ttStep, TT.reset, Call.logged, hf0]
+        | _ => simp [step, tfrStep, ttStep, Call.logged, hf0]
+      simp only [states, List.map_cons, ffStops, Bool.and_eq_true, Bool.or_eq_true, Bool.not_eq_true']
+      refine ⟨.inl ?_, ffStops_tfr ch h _ hh.2 hf'⟩
+      simp [readFF, caps, failfastOf, hf0]
+
+/-- the clauses of `Spec.C04.clauses` proved of the model so far (not yet: `failfast-kept`, `stop-sticky`,
+`not-earlier` — these are checked against the implementation and the model by the correspondence only) -/
+def provedClauses : List (String × (Input → Trace → Bool)) :=
+  [("verdict", cVerdict), ("text-summary", cText), ("failfast-stops", cFailfastStops),
+   ("stop-reaches", cStopReaches), ("exit-status", cExit)]
+
+/-- **Headline (partial).**  Full statement: `∀ i, i.shape.wf → ¬ tfrOwnFailfastDirect i → ¬ nestedMultiFailfast i →
+Spec.C04.holds i (model i) = true`.  Proved here: the clauses `verdict`, `text-summary`, `failfast-stops`,
+`stop-reaches`, `exit-status` for every input whose graph has no stream pipeline and no `TextTestResult` behind a
+`ThreadsafeForwardingResult`, outside the finding class `tfrOwnFailfastDirect`. -/
+theorem holds_model_partial (i : Input) (hw : i.shape.wf = true) (hn : i.shape.noStream = true)
+    (ht : i.shape.hasTfr = false ∨ hasText i.shape = false) (hc : tfrOwnFailfastDirect i = false) :
+    provedClauses.all (fun c => c.2 i (model i)) = true := by
+  simp only [provedClauses, List.all_cons, List.all_nil, Bool.and_true, Bool.and_eq_true]
+  have scope : inScope i = true → i.hist.all Call.ok = true ∧ ownLeaves i.shape = true ∧
+      ((hasText i.shape || Spec.C17.Shape.hasE2s i.shape) = false ∨ i.hist.head? = some .startTestRun) := by
+    intro h
+    simp only [inScope, Bool.and_eq_true, Bool.or_eq_true, Bool.not_eq_true', beq_iff_eq] at h
+    exact ⟨h.1.1, h.1.2, h.2⟩
+  refine ⟨?_, ?_, ?_, ?_, ?_⟩
+  · -- verdict
+    cases hs : inScope i
+    · simp [cVerdict, hs]
+    · obtain ⟨_, ho, _⟩ := scope hs
+      simp only [cVerdict, hs, hn, Bool.and_self, Bool.not_true, Bool.false_or, beq_iff_eq, model]
+      rw [obs_map]
+      exact C04_verdict i.shape hw ho hn i.hist
+  · -- text summary
+    cases hs : inScope i
+    · simp [cText, hs]
+    · obtain ⟨_, ho, hh⟩ := scope hs
+      have notext : hasText i.shape = false →
+          ((leaves i.shape (run i.shape (init i.shape) i.hist)).filterMap LeafSt.textOut).all
+            (fun x => x == textSpec {} i.hist) = true := by
+        intro h0; rw [noText_leaves i.shape h0]; rfl
+      rcases ht with ht | ht
+      · simp only [cText, hs, hn, ht, Bool.not_false, Bool.or_true, Bool.and_self, Bool.not_true, Bool.false_or, model]
+        rcases hh with hh | hh
+        · simp only [Bool.or_eq_false_iff] at hh; exact notext hh.1
+        · cases hhist : i.hist with
+          | nil => rw [hhist] at hh; cases hh
+          | cons c h =>
+            rw [hhist] at hh
+            simp only [List.head?_cons, Option.some.injEq] at hh
+            subst hh
+            rw [List.all_eq_true]
+            intro x hx
+            rw [← hhist] at hx
+            have := C04_text_summary_partial i.shape ho hn ht h x (by rw [← hhist]; exact hx)
+            simp [this]
+      · simp only [cText, model, Bool.or_eq_true]
+        right; exact notext ht
+  · -- fail-fast stops
+    cases hs : inScope i
+    · simp [cFailfastStops, hs]
+    · obtain ⟨_, ho, _⟩ := scope hs
+      simp only [cFailfastStops, hs, Bool.not_true, Bool.false_or, model]
+      by_cases hroot : ∃ c, i.shape = .tfr c
+      · obtain ⟨c, hcs⟩ := hroot
+        obtain ⟨sh, hist, prog⟩ := i
+        simp only at hcs
+        subst hcs
+        simp only [tfrOwnFailfastDirect, Bool.true_and] at hc
+        exact ffStops_tfr c hist (init (.tfr c)) hc rfl
+      · exact ffStops_states i.shape hw ho hn (fun c hcs => hroot ⟨c, hcs⟩) i.hist (init i.shape)
+  · -- stop reaches
+    cases hs : inScope i
+    · simp [cStopReaches, hs]
+    · obtain ⟨_, ho, _⟩ := scope hs
+      simp only [cStopReaches, hs, hn, Bool.and_self, Bool.not_true, Bool.false_or, model]
+      exact stopReaches_states i.shape hw ho hn i.hist (init i.shape)
+  · -- exit status
+    simp only [cExit, model]
+    cases i.prog with
+    | none => rfl
+    | some p =>
+      obtain ⟨ff, ks⟩ := p
+      simp only [Option.map_some, C04_exit]
+      simp
+
+/-! ## known findings and non-vacuity -/
+/-- finding `tfrOwnFailfastDirect` (D15): `failfast` assigned on a `ThreadsafeForwardingResult` itself is ignored -/
+def witnessTfr : Input :=
+  { shape := .tfr (.etod (.tt false)),
+    hist := [.startTestRun, .setFailfast true, .startTest 1, .add .error 1 (.exc .real), .stopTest 1], prog := none }
+
+theorem C04_finding_tfr :
+    tfrOwnFailfastDirect witnessTfr = true ∧ inScope witnessTfr = true ∧
+    cFailfastStops witnessTfr (model witnessTfr) = false := by decide
+
+/-- finding `nestedMultiFailfast`: the outer `MultiTestResult` clears the `failfast` of the inner one's second target -/
+def witnessNested : Input :=
+  { shape := .multi [.etod (.multi [.etod (.tt false), .etod (.tt true)])], hist := [], prog := none }
+
+theorem C04_finding_nested :
+    nestedMultiFailfast witnessNested = true ∧ inScope witnessNested = true ∧
+    (model witnessNested).leafFF = [false, false] ∧ cFailfastKept witnessNested (model witnessNested) = false := by decide
+
+/-- not vacuous: fail-fast set on one leaf before wrapping, a second run, `MultiTestResult` over a
+`ThreadsafeForwardingResult` and a `TextTestResult` -/
+example :
+    let i : Input :=
+      { shape := .multi [.etod (.tfr (.etod (.tt true))), .etod (.text false)],
+        hist := [.startTestRun, .startTest 1, .add .success 1 .none, .stopTest 1, .startTest 2, .add .failure 2 (.exc .real),
+                 .stopTest 2, .stopTestRun, .startTestRun, .stopTestRun],
+        prog := some (true, [.success, .uxsuccess, .error]) }
+    inScope i = true ∧ holds i (model i) = true ∧
+    (model i).obs.map (fun o => (o.ws, o.ss)) =
+      [(true, false), (true, false), (true, false), (true, false), (true, false), (false, true), (false, true),
+       (false, true), (true, false), (true, false)] ∧
+    (model i).texts = [[.running, .sect 1 2, .ran 2, .failed 1, .running, .ran 0, .ok]] ∧
+    (model i).exit = some (1, [.running, .sect 2 1, .ran 2, .failed 1]) := by
+  decide
 
 end TTV.Props.C04
